@@ -1,5 +1,6 @@
 import PynencModel.Model.Proto
 import PynencModel.Model.Recovery
+import PynencModel.Model.Concurrency
 import PynencModel.Gen.StatusTable
 /-
   Driver fragment for the orchestrator model (C04, C06, C07, C16): indexes, heartbeats, scans, retries,
@@ -12,6 +13,11 @@ open Pynenc Pynenc.Proto
 structure St where
   orch  : Orch := {}
   queue : List String := []
+  conf  : AMap String CC.TaskConf := []
+  batch : Option (String × Option String × Int × List (String × String × List (String × String))) := none
+
+def St.sys (w : St) : CC.Sys := { orch := w.orch, queue := w.queue }
+def St.confOf (w : St) (t : String) : CC.TaskConf := (w.conf.get? t).getD {}
 
 def showRec (r : ORec) : String := s!"{r.status.name} {tok r.owner} {r.ts}"
 
@@ -126,6 +132,58 @@ def handle (w : St) : List String → Option (St × String)
       let (o2, q2, ok) := Recovery.reroutePhase Gen.table rd o1 w.queue (taken.map fun i => (i, []))
       some ({ orch := o2, queue := q2 }, s!"{if ok then "done" else "aborted"} scan {showIds scan} taken {showIds taken}")
     | _, _, _ => bad w
+  -- concurrency control -------------------------------------------------------------------------
+  | "cc.conf" :: task :: reg :: run :: rse :: rer :: keys =>
+    match untok task, CC.Mode.ofName? reg, CC.Mode.ofName? run, parseIds keys with
+    | some (some t), some rg, some rn, some ks =>
+      some ({ w with conf := w.conf.set t { regMode := rg, runMode := rn, keyArgs := ks, raiseOnDiff := rse == "1", rerouteOnCC := rer == "1" } }, "ok")
+    | _, _, _, _ => bad w
+  | "cc.route" :: task :: call :: fresh :: rid :: ts :: kv =>
+    match untok task, untok call, untok fresh, untok rid, ts.toInt?, parsePairs kv with
+    | some (some t), some (some c), some (some f), some rd, some ts, some args =>
+      let (s', res) := CC.routeCall w.sys (w.confOf t) t c args f rd ts
+      some ({ w with orch := s'.orch, queue := s'.queue },
+        match res with
+        | .new i => "new " ++ tok (some i) | .reused i => "reused " ++ tok (some i)
+        | .reusedArgs i => "reused-args " ++ tok (some i) | .errDiff => "err diffargs")
+    | _, _, _, _, _, _ => bad w
+  | ["cc.batch.begin", task, rid, ts] =>
+    match untok task, untok rid, ts.toInt? with
+    | some (some t), some rd, some ts => some ({ w with batch := some (t, rd, ts, []) }, "ok")
+    | _, _, _ => bad w
+  | "cc.batch.add" :: id :: call :: kv =>
+    match w.batch, untok id, untok call, parsePairs kv with
+    | some (t, rd, ts, cs), some (some i), some (some c), some args => some ({ w with batch := some (t, rd, ts, cs ++ [(i, c, args)]) }, "ok")
+    | _, _, _, _ => bad w
+  | ["cc.batch.end"] =>
+    match w.batch with
+    | some (t, rd, ts, cs) =>
+      let s' := CC.routeBatch w.sys (w.confOf t) t cs rd ts
+      some ({ w with orch := s'.orch, queue := s'.queue, batch := none }, "ok")
+    | none => bad w
+  | ["cc.poll", n, rid, ts] =>
+    match n.toNat?, untok rid, ts.toInt? with
+    | some n, some rd, some ts =>
+      let (s', out) := CC.poll Gen.table w.confOf w.sys n rd ts
+      some ({ w with orch := s'.orch, queue := s'.queue },
+        match out with | .ok c => "ok " ++ showIds c false | .raised c => "raised " ++ showIds c false)
+    | _, _, _ => bad w
+  | ["cc.start", id, rid, ts] =>
+    match untok id, untok rid, ts.toInt? with
+    | some (some i), some rd, some ts =>
+      let (s', ok) := CC.startRun Gen.table w.confOf w.sys i rd ts
+      some ({ w with orch := s'.orch, queue := s'.queue }, toString ok)
+    | _, _, _ => bad w
+  | "o.queue.set" :: ids =>
+    match parseIds ids with
+    | some q => some ({ w with queue := q }, "ok")
+    | none => bad w
+  | ["o.pop"] =>
+    match w.queue with
+    | [] => some (w, "-")
+    | i :: q => some ({ w with queue := q }, tok (some i))
+  | ["o.statuses"] =>
+    some (w, " ".intercalate ((sortBy (fun a b => strLe a.1 b.1) w.orch.recs).map fun (i, r) => s!"{tok (some i)}={r.status.name}/{tok r.owner}"))
   | _ => none
 
 end Pynenc.Driver.OrchOps
